@@ -2,6 +2,7 @@ package props
 
 import (
 	"fmt"
+	"go/token"
 	"sort"
 	"strings"
 
@@ -78,14 +79,19 @@ func runC38(c *an.Ctx) {
 	if save == nil {
 		return
 	}
-	saveGuard := an.GuardForFuncs("save", save)
+	// persisting = the client's save(), or what it does written in place: walletData.Save(path)
+	walletSave := mustObj(c, acct+".(*WalletData).Save")
+	if walletSave == nil {
+		return
+	}
+	saveGuard := an.GuardForFuncs("save", save, walletSave)
 	mutators := []string{"addAccountData", "DeleteAccount", "SetDefaultAccount", "SetLabel", "ChangePassword", "ChangeSigScheme"}
 	for _, m := range mutators {
 		fn := mustFunc(c, acct+".(*ClientImpl)."+m)
 		if fn == nil {
 			continue
 		}
-		calls := an.CallsTo(fn, save)
+		calls := append(an.CallsTo(fn, save), an.CallsTo(fn, walletSave)...)
 		if len(calls) != 1 {
 			c.Violate("persist|"+m+"|saves-once", "a wallet mutator persists the wallet exactly once", c.P.Rel(fn.Pos()), fmt.Sprintf("%d save() calls", len(calls)))
 			continue
@@ -122,6 +128,47 @@ func runC38(c *an.Ctx) {
 			}
 		}
 		c.Check(restores >= 1, "persist|"+m+"|rollback-on-failed-save", "when save() fails the mutator restores the in-memory state it changed (memory and file stay in step)", c.P.Rel(fn.Pos()), "nothing is restored on the failure edge of save()")
+		// the restore is effective: what is put back is a snapshot taken before the mutation, not a pointer into the
+		// very record that was overwritten (SetKeyPair(&rec.ProtectedKey) on rec copies the new key onto itself), and
+		// not a re-read of the field after it was changed
+		aliasWhy := ""
+		for _, b := range fn.Blocks {
+			for _, in := range b.Instrs {
+				if !fail.Reaches(in) {
+					continue
+				}
+				switch x := in.(type) {
+				case *ssa.Call:
+					o := an.CalleeObj(x.Common())
+					if o == nil || o.Name() != "SetKeyPair" || len(x.Call.Args) < 2 {
+						continue
+					}
+					recv := x.Call.Args[0]
+					for p := x.Call.Args[1]; p != nil; {
+						fa, isFA := p.(*ssa.FieldAddr)
+						if !isFA {
+							break
+						}
+						if fa.X == recv {
+							aliasWhy = "SetKeyPair at " + c.P.Rel(x.Pos()) + " restores from " + an.AccessPath(x.Call.Args[1]) + ", which lies inside the record it overwrites: the new key is copied onto itself"
+						}
+						p = fa.X
+					}
+				case *ssa.Store:
+					fa, isField := x.Addr.(*ssa.FieldAddr)
+					if !isField {
+						continue
+					}
+					// x.f = <load of x.f made after the save call>: restores nothing
+					if ld, isLd := x.Val.(*ssa.UnOp); isLd && ld.Op == token.MUL {
+						if fa2, isFA2 := ld.X.(*ssa.FieldAddr); isFA2 && fa2.X == fa.X && fa2.Field == fa.Field && fail.Reaches(ld) {
+							aliasWhy = "the field restored at " + c.P.Rel(x.Pos()) + " is re-read after the change: nothing is restored"
+						}
+					}
+				}
+			}
+		}
+		c.Check(aliasWhy == "", "persist|"+m+"|rollback-restores-a-snapshot", "what is restored after a failed save() is a copy taken before the change, not an alias of the changed record", c.P.Rel(fn.Pos()), aliasWhy)
 		// lock
 		locked := false
 		for _, k := range an.Calls(fn) {
